@@ -2,6 +2,8 @@ import CoercionModel.Model.Clone
 import CoercionModel.Generated.F7
 import CoercionModel.Model.SkeletonsMore
 import CoercionModel.Generated.F12
+import CoercionModel.Model.SkeletonsGlue
+import CoercionModel.Generated.F15
 set_option linter.unusedSimpArgs false
 /-
   C18 — Clones are deep, definition-preserving and resubmittable.
@@ -109,5 +111,9 @@ set_option maxRecDepth 100000 in
 /-- the code this property's model mirrors still has the shape the model was written against (control-flow
     skeletons regenerated from /repo on every run, Model/SkeletonsMore) -/
 theorem facts_model_skeleton : Generated.F12.clone = SkeletonsMore.clone := by rfl
+
+/-- the glue code this property's campaigns rest on (group `cloneGlue` of Model/SkeletonsGlue: code no model mirrors) still has
+    the shape it was read with (regenerated from /repo on every run) -/
+theorem facts_glue_skeleton : Generated.F15.cloneGlue = SkeletonsGlue.cloneGlue := by rfl
 
 end Coercion.C18
